@@ -52,6 +52,11 @@ RECIPES = {
                                                        {i: i % 2 for i in range(6)}, {i: i % 2 for i in range(4)},
                                                        np.array([[5, 1], [1, 5]]), seed=s),
     "watts_strogatz_hypergraph": lambda s: xgi.watts_strogatz_hypergraph(8, 3, 2, 1, 0.5, seed=s),
+    # small dense ring: rewired edges often land on existing ones
+    "watts_strogatz_hypergraph#dense": lambda s: xgi.watts_strogatz_hypergraph(6, 2, 4, 0, 0.9, seed=s),
+    # degree sum not a multiple of m: the repair branch
+    "uniform_hypergraph_configuration_model#repair": lambda s: xgi.uniform_hypergraph_configuration_model(
+        {i: 2 for i in range(5)}, 3, seed=s),
     "shuffle_hyperedges": lambda s: xgi.shuffle_hyperedges(_H(), 2, 0.8, seed=s),
     "random_simplicial_complex": lambda s: xgi.random_simplicial_complex(7, [0.4, 0.3], seed=s),
     "flag_complex": lambda s: xgi.flag_complex(nx.complete_graph(5), max_order=3, ps=[0.5, 0.5], seed=s),
@@ -70,6 +75,15 @@ RECIPES = {
     "bipartite_spring_layout": lambda s: xgi.bipartite_spring_layout(_H(), seed=s),
     "spectral_clustering": lambda s: xgi.spectral_clustering(_H2(), 3, seed=s),
 }
+
+
+def variants():
+    """(name, callable(seed)) for every recipe, with python-int seeds and with numpy-integer seeds"""
+    out = []
+    for name, f in RECIPES.items():
+        out.append((name, f))
+        out.append((name + "[np.int64 seed]", lambda s, f=f: f(np.int64(s))))
+    return out
 
 
 def canon(x):
@@ -104,7 +118,7 @@ def _alarm(signum, frame):
 def _worker(args):
     fn, schedules, base = args
     signal.signal(signal.SIGALRM, _alarm)
-    f = RECIPES[fn]
+    f = dict(variants())[fn]
     out = []
     for k, acts in enumerate(schedules):
         rec = []
@@ -131,7 +145,7 @@ def _worker(args):
             elif a["a"] == "seed_np":
                 np.random.seed(54321 + k)
             rec.append(e)
-        out.append({"rid": f"{fn}.{base + k}", "what": fn, "fn": fn, "acts": rec})
+        out.append({"rid": f"{fn}.{base + k}", "what": fn, "fn": fn, "acts": rec, "strict": "[np.int64" not in fn})
     return out
 
 
@@ -163,12 +177,15 @@ def run(tier, seed_):
     scheds, mc = enumerate_schedules(4 if tier == "quick" else 5)
     fns = seeded_functions()
     uncovered = [f for f in fns if f not in RECIPES]
+    allv = [n for n, _ in variants() if n.split("[")[0].split("#")[0] in fns]
     rng = random.Random(seed_)
     per_fn = 24 if tier == "quick" else len(scheds)
     jobs = []
-    for i, fn in enumerate(f for f in fns if f in RECIPES):
+    for i, fn in enumerate(allv):
         pick = scheds if len(scheds) <= per_fn else rng.sample(scheds, per_fn)
-        slow = fn in ("spectral_clustering", "pairwise_spring_layout", "barycenter_spring_layout",
+        if "[np.int64" in fn and tier == "quick":
+            pick = pick[:8]
+        slow = fn.split("[")[0] in ("spectral_clustering", "pairwise_spring_layout", "barycenter_spring_layout",
                       "weighted_barycenter_spring_layout", "bipartite_spring_layout")
         if slow and tier == "quick":
             pick = pick[:12]
